@@ -1,8 +1,8 @@
 #!/bin/bash
 # ./sweep.sh [tier] [seed]  run every registered check once; print one line per property
 TIER=${1:-quick}; export VERIF_SEED=${2:-1}
-cd /verif
-for id in $(./.bin/vmon list | cut -d' ' -f1); do
+cd "$(dirname "$0")"
+for id in ${SWEEP_IDS:-$(jq -r ".checks[].property_id" MANIFEST.json)}; do
   s=$(date +%s); out=$(./check $id $TIER 2>&1); rc=$?
   echo "$id rc=$rc $(( $(date +%s)-s ))s $(echo "$out" | grep "^$id " | sed 's/^[^:]*: //' | cut -c1-150)"
   [ $rc -ne 0 ] && echo "$out" | grep "signature\|INCONCLUSIVE\|BUILD" | head -5 | cut -c1-300
